@@ -1075,8 +1075,9 @@ func TestVerif_C08_h2life(t *testing.T) {
 				id := fmt.Sprintf("h2life/%s/%s/%d", sc.name, kind, k)
 				s.Begin(id, id)
 				o, _ := c08h2Run(sc, kind, k)
-				if o.infra != "" || !o.reached {
-					// once more: a stalled machine gives the same picture
+				if o.infra != "" || !o.reached || !o.rel || o.late > time.Second {
+					// once more: a stalled machine gives the same picture once, a defect again
+					count("case-run-again")
 					o, _ = c08h2Run(sc, kind, k)
 				}
 				if o.infra != "" || !o.reached {
